@@ -147,6 +147,28 @@ pub fn dispatch(a: &[String]) -> String {
       }
       format!("results={} {}", results.join(","), ws.verif_dump())
     }
+    #[cfg(dmntk_verif_lexer)]
+    "lex_name" => dmntk_feel_parser::verif_lex_name(&a[1], a[2] == "1", &a[3..]),
+    "names" => {
+      // names <expr> <name>=<number> ...: the scope is built programmatically from (Name, Value) pairs (no lexer involved in the
+      // binding; a name is given by its parts separated by the unit separator U+001F), then parse + evaluate
+      let scope = dmntk_feel::Scope::default();
+      let mut ctx = dmntk_feel::context::FeelContext::default();
+      for b in &a[2..] {
+        let (n, v) = b.rsplit_once('=').unwrap();
+        let parts: Vec<String> = n.split('\u{1F}').map(|s| s.to_string()).collect();
+        let name: dmntk_feel::Name = parts.into();
+        ctx.set_entry(&name, dmntk_feel::values::Value::Number(v.parse::<dmntk_feel_number::FeelNumber>().unwrap()));
+      }
+      scope.push(ctx);
+      match dmntk_feel_parser::parse_expression(&scope, &a[1], false) {
+        Ok(node) => match dmntk_feel_evaluator::evaluate(&scope, &node) {
+          Ok(v) => format!("VALUE {}", v),
+          Err(e) => format!("EVAL-ERROR {}", e),
+        },
+        Err(e) => format!("PARSE-ERROR {}", e),
+      }
+    }
     "scope_after" => {
       // scope_after <context literal> <expr> [<expr2>]: rendering of the scope before and after parse + evaluate
       let scope = dmntk_feel::Scope::default();
